@@ -600,8 +600,8 @@ func Check(c Case) (v vcase.Verdict) {
 
 // ---------------------------------------------------------------------------
 
-var specificKeys = []string{".name", "/size", "/kind", "/gomaxprocs", "goos", "pkg", "commit", "note", ".file", "cpu/model"}
-var fileKeyPool = []string{"goos", "pkg", "commit", "note", "cpu", "extra", "cpu/model"}
+var specificKeys = []string{".name", "/size", "/kind", "/gomaxprocs", "goos", "pkg", "commit", "note", ".file", "cpu/model", "città", "Å"}
+var fileKeyPool = []string{"goos", "pkg", "commit", "note", "cpu", "extra", "cpu/model", "città", "Å", "ключ"}
 var valPool = []string{"linux", "darwin", "1", "2", "abc", "x y", "é", "12", "21", "1", "2", "ab", "c"}
 
 func genName(t *rapid.T, arbitrary bool) string {
